@@ -120,7 +120,8 @@ def unit_small_scope():
 def sim_cases():
     cfg = g.config(restarts=True, putlocks=False)
     ops = [
-        g.op_apply(), g.work, g.work, g.run, g.feed, g.tick, g.tick, g.tick,
+        g.op_apply(), g.op_apply(), g.op_map(), g.discard, g.discard, g.work,
+        g.work, g.run, g.feed, g.tick, g.tick, g.tick,
         g.adv, g.adv, g.die_any, g.die_any, g.die_any, g.dier,
         g.worker_ops[0], g.worker_ops[2], g.worker_ops[4],
         st.tuples(st.just('adv'), st.sampled_from(
